@@ -134,20 +134,23 @@ def check_vol(rec, variant=0):
                  f'get_volume_searchlight raises {centres!r} although centres qualify', case)]
     bad = []
     got_c = [int(x) for x in np.asarray(centres).ravel()]
-    if got_c != exp_c:
+    # the property fixes the SET of accepted centres and the pairing centre <-> neighbour list, not the order
+    # in which centres are listed (on this tree: ascending linear index, as in the model)
+    if sorted(got_c) != sorted(exp_c) or len(set(got_c)) != len(got_c):
         bad.append(('b/centres', 'accepted centres differ from the mask voxels whose in-mask fraction >= threshold '
-                    '(linear C-order indices, ascending)', {**case, 'expected': exp_c, 'got': got_c}))
+                    '(linear C-order indices)', {**case, 'expected': exp_c, 'got': got_c}))
         return bad
     if len(neigh) != len(exp_c):
         bad.append(('b/neighbour-lists/count', 'number of neighbour lists differs from the number of centres',
                     {**case, 'n_lists': len(neigh), 'n_centres': len(exp_c)}))
         return bad
-    for i, (nb, exp) in enumerate(zip(neigh, rec['neigh'])):
+    exp_map = {c: sorted(nb) for c, nb in zip(exp_c, rec['neigh'])}
+    for i, nb in enumerate(neigh):
         g = [int(x) for x in np.asarray(nb).ravel()]
-        if sorted(g) != sorted(exp):
-            bad.append(('a/volume/membership', 'neighbour list of an accepted centre is not its searchlight '
-                        '(linear indices consistent with the centres)',
-                        {**case, 'centre': exp_c[i], 'expected': sorted(exp), 'got': sorted(g)}))
+        if sorted(g) != exp_map[got_c[i]]:
+            bad.append(('a/volume/membership', 'neighbour list i is not the searchlight of centre i '
+                        '(linear indices consistent with the centres, every voxel once)',
+                        {**case, 'position': i, 'centre': got_c[i], 'expected': exp_map[got_c[i]], 'got': sorted(g)}))
             break
     return bad
 
